@@ -461,65 +461,115 @@ def _r11(ctx, pkg, cname, cfn):
     """The tokenizer searches every table entry as a PATTERN but recognises what it found by comparing the matched TEXT with the
     table entries (`element in self._known_pseudoelements` in the count method).  For the two to agree a symbol must be stored
     exactly as the caller gave it: every value a method of Species puts into _known_elements / _known_pseudoelements that comes
-    from one of its parameters is an element of that parameter, untouched (no escape / strip / case change / formatting on the way)."""
+    from one of its parameters is an element of that parameter, untouched (no escape / strip / case change / formatting on the way).
+    A helper of the class that fills a list it is HANDED (`cls._extend(names, cls._known_elements, ..)`) is read at its call sites:
+    what it does to its list parameter it does to the table passed for it."""
     ci = pkg.cls("Species")
     # premise: the count method classifies by membership of the matched text in a table
     premise = any(isinstance(c, ast.Compare) and len(c.ops) == 1 and isinstance(c.ops[0], (ast.In, ast.NotIn)) and isinstance(c.comparators[0], ast.Attribute)
                   and c.comparators[0].attr in TABLES for c in ast.walk(cfn))
-    n = 0
 
     def proc(name):
         return pkg.resolve("Species", name)[1]
+
+    def params_of(fn):
+        static = any(ast.unparse(d) == "staticmethod" for d in fn.decorator_list)
+        return [a.arg for a in (fn.args.args if static else fn.args.args[1:])] + [a.arg for a in fn.args.kwonlyargs]
+
+    def status_of(how, v, params):
+        """('verbatim' | 'transformed' | 'unread', what is stored per element) for the value stored by append / extend / assignment"""
+        atoms = set()
+        if how in ("append", "insert"):
+            elt = v
+        elif v[0] == "comp" and v[1] in ("list", "gen") and len(v[3]) == 1 and _identity_view(v[3][0][1], params):
+            elt = v[2]
+            atoms = {x for x in walk(v[3][0][0]) if isinstance(x, tuple) and x and x[0] == "bv"}
+        elif _identity_view(v, params):
+            return "verbatim", v
+        else:
+            return "unread", v
+        atoms |= {x for x in walk(elt) if isinstance(x, tuple) and len(x) == 3 and x[0] == "elem" and _identity_view(x[1], params)}
+        return ("verbatim" if elt in atoms else "transformed" if atoms else "unread"), elt
+
+    flows, summaries = {}, {}
     for mname, fn in sorted(ci.methods.items()):
-        if not isinstance(fn, ast.FunctionDef) or not any(isinstance(a, ast.Attribute) and a.attr in TABLES for a in ast.walk(fn)):
+        if not isinstance(fn, ast.FunctionDef):
             continue
-        params = {a.arg for a in fn.args.args[1:] + fn.args.kwonlyargs} if not any(ast.unparse(d) == "staticmethod" for d in fn.decorator_list) else {a.arg for a in fn.args.args}
+        params = set(params_of(fn))
         if not params:
             continue
         try:
             fl = Flow(fn, SP, resolver=proc, proc_resolver=proc)
         except RecursionError:
             continue
+        flows[mname] = (fn, fl, params)
+        out = []
         for f in fl.facts:
-            table = how = v = None
-            if f.kind == "call" and f.value is not None and f.value[0] == "meth" and f.value[2] in ("append", "extend", "insert", "__iadd__"):
+            dst = how = v = None
+            if f.kind == "call" and f.value is not None and f.value[0] == "meth" and f.value[2] in ("append", "extend", "insert", "__iadd__") and f.value[3]:
                 o = simp(f.value[1])
-                if o[0] == "attr" and o[2] in TABLES and f.value[3]:
-                    table, how, v = o[2], f.value[2], f.value[3][-1]
-            elif f.kind == "attrstore" and f.target in TABLES:
-                table, how, v = f.target, "extend", f.value
-                if f.op not in ("=", "Add"):
-                    continue
-            if table is None or v is None:
+                if o[0] == "attr" and o[2] in TABLES:
+                    dst, how, v = o[2], f.value[2], f.value[3][-1]
+                elif o[0] == "param" and o[1] in params:
+                    dst, how, v = o, f.value[2], f.value[3][-1]
+            elif f.kind == "attrstore" and f.target in TABLES and f.op in ("=", "Add"):
+                dst, how, v = f.target, "extend", f.value
+            if dst is None or v is None:
                 continue
             v = simp(v)
-            if not any(isinstance(x, tuple) and len(x) == 2 and x[0] == "param" and x[1] in params for x in walk(v)):
+            src = {x[1] for x in walk(v) if isinstance(x, tuple) and len(x) == 2 and x[0] == "param" and x[1] in params}
+            if not src:
                 continue            # not the caller's symbols (the defaults, entries moved from the other table)
-            n += 1
-            key = f"Species.{mname}:{table}.{how}:stored verbatim"
-            atoms = set()
-            if how in ("append", "insert"):
-                elt = v
-            elif v[0] == "comp" and v[1] in ("list", "gen") and len(v[3]) == 1 and _identity_view(v[3][0][1], params):
-                elt = v[2]
-                atoms = {x for x in walk(v[3][0][0]) if isinstance(x, tuple) and x and x[0] == "bv"}
-            elif _identity_view(v, params):
-                ctx.ok("R11", key, (SP, f.line), "the caller's list is stored as it is")
-                continue
-            else:
-                ctx.unrec("R11", key, (SP, f.line), f"cannot tell how the stored list derives from the argument: {show(v)[:100]}")
-                continue
-            atoms |= {x for x in walk(elt) if isinstance(x, tuple) and len(x) == 3 and x[0] == "elem" and _identity_view(x[1], params)}
-            if elt in atoms:
-                ctx.ok("R11", key, (SP, f.line), "the symbol is stored exactly as the caller gave it")
-            elif atoms and premise:
-                ctx.bad("R11", key, (SP, f.line),
-                        f"the symbol is TRANSFORMED before it is stored in `{table}` ({show(elt)[:80]}): the tokenizer finds the symbol by searching the stored entry as a pattern, but "
-                        f"`{cname}` recognises what was found by comparing the matched text with the stored entries -- a symbol whose stored form differs from its text (`c-` stored as "
-                        "`c\\-`) is still matched and no longer recognised as a pseudo-element: the label is counted as an atom",
-                        expected=f"{table}.append(symbol) / .extend(symbols)", found=show(elt)[:120])
-            else:
-                ctx.unrec("R11", key, (SP, f.line), f"cannot tell whether the stored value is the caller's symbol: {show(elt)[:100]}")
+            st, elt = status_of(how, v, params)
+            out.append({"dst": dst, "how": how, "status": st, "elt": elt, "line": f.line, "src": src})
+        summaries[mname] = out
+    n = 0
+
+    def report(key, line, table, st, elt):
+        if st == "verbatim":
+            ctx.ok("R11", key, (SP, line), "the symbol is stored exactly as the caller gave it")
+        elif st == "transformed" and premise:
+            ctx.bad("R11", key, (SP, line),
+                    f"the symbol is TRANSFORMED before it is stored in `{table}` ({show(elt)[:80]}): the tokenizer finds the symbol by searching the stored entry as a pattern, but "
+                    f"`{cname}` recognises what was found by comparing the matched text with the stored entries -- a symbol whose stored form differs from its text (`c-` stored as "
+                    "`c\\-`) is still matched and no longer recognised as a pseudo-element: the label is counted as an atom",
+                    expected=f"{table}.append(symbol) / .extend(symbols)", found=show(elt)[:120])
+        else:
+            ctx.unrec("R11", key, (SP, line), f"cannot tell whether the value stored in `{table}` is the caller's symbol: {show(elt)[:100]}")
+    for mname, (fn, fl, params) in flows.items():
+        for e in summaries[mname]:
+            if isinstance(e["dst"], str):
+                n += 1
+                report(f"Species.{mname}:{e['dst']}.{e['how']}:stored verbatim", e["line"], e["dst"], e["status"], e["elt"])
+        # helpers that fill a list they are handed, called with a table for that list
+        seen = set()
+        for f in fl.facts:
+            for c in (walk(f.value) if f.value is not None else ()):
+                if not (isinstance(c, tuple) and len(c) == 5 and c[0] == "meth" and c[2] in summaries and c[2] != mname and c[1] in (("param", "cls"), ("param", "self"), ("global", "Species"))):
+                    continue
+                hp = params_of(ci.methods[c[2]])
+                bound = dict(zip(hp, c[3]))
+                bound.update({k: v for k, v in c[4] if k in hp})
+                for e in summaries[c[2]]:
+                    if isinstance(e["dst"], str) or e["dst"][1] not in bound:
+                        continue
+                    t = simp(bound[e["dst"][1]])
+                    if not (t[0] == "attr" and t[2] in TABLES) or (c[2], t[2], e["line"], f.line) in seen:
+                        continue
+                    seen.add((c[2], t[2], e["line"], f.line))
+                    args = [simp(bound[q]) for q in e["src"] if q in bound]
+                    mine = [a for a in args if any(isinstance(x, tuple) and len(x) == 2 and x[0] == "param" and x[1] in params for x in walk(a))]
+                    if not mine:
+                        continue
+                    n += 1
+                    st = e["status"]
+                    elt = e["elt"]
+                    for a in mine:
+                        if not _identity_view(a, params):
+                            st2, elt2 = status_of("extend", a, params)
+                            if st2 != "verbatim":
+                                st, elt = (st2 if st != "transformed" else st), elt2
+                    report(f"Species.{mname}:{t[2]}.{e['how']} in {c[2]}:stored verbatim", f.line, t[2], st, elt)
     ctx.floor("R11", "stores of caller-given symbols into the tables", n, 4, (SP, 0))
 
 
@@ -691,4 +741,12 @@ MUTANTS += [
     {"name": "helper-object-cuts-the-span-out", "edits": _SCAN_OBJ + [{"file": SP, "old": "class Species:\n", "new": _SCANNER % "\"\"" + "class Species:\n"}], "rules": ["R2"]},
     {"name": "helper-object-fed-unsorted-symbols", "edits": _SCAN_OBJ + [{"file": SP, "old": "class Species:\n", "new": _SCANNER % "\" \" * (hi - lo)" + "class Species:\n"},
                                                                        {"file": SP, "old": "components = sorted(elements + symbols, key=len, reverse=True)", "new": "components = elements + symbols"}], "rules": ["R1"]},
+]
+_FILL = "    @staticmethod\n    def _fill(table, names) -> None:\n        table.clear()\n        table.extend(%s)\n\n    @classmethod\n    def reset(cls) -> None:\n"
+_FILL_EDITS = [{"file": SP, "old": _SET_PS, "new": "        cls._fill(cls._known_pseudoelements, pelements)\n"}]
+BENIGN += [
+    {"name": "table-filled-by-a-helper-handed-the-table", "edits": _FILL_EDITS + [{"file": SP, "old": "    @classmethod\n    def reset(cls) -> None:\n", "new": _FILL % "names"}]},
+]
+MUTANTS += [
+    {"name": "helper-handed-the-table-strips-the-symbols", "edits": _FILL_EDITS + [{"file": SP, "old": "    @classmethod\n    def reset(cls) -> None:\n", "new": _FILL % "[n.strip() for n in names]"}], "rules": ["R11"]},
 ]
